@@ -184,11 +184,12 @@ type GC<T extends string> = { [K in T]: K };
 type Fn = (x: number) => string;
 type Shape = { kind: "circle", r: number } | { kind: "square", x: number } | { kind: "triangle", x: number, y: number };
 type KC = { kind: "circle" };
+type MK = Map<MK[], string>;
 "#;
 fn leaves() -> Vec<&'static str> {
     vec![
         "string", "number", "boolean", "null", "undefined", "\"a\"", "1", "true", "any", "unknown", "never", "Date", "bigint", "void",
-        "O", "O2", "U", "Tup", "Rec", "RT", "Alias", "G<string>", "D1", "D2", "RS", "RM", "En", "I1", "I2", "GC<U>", "Fn", "object", "symbol", "Shape", "KC",
+        "O", "O2", "U", "Tup", "Rec", "RT", "Alias", "G<string>", "D1", "D2", "RS", "RM", "En", "I1", "I2", "GC<U>", "Fn", "object", "symbol", "Shape", "KC", "MK",
     ]
 }
 fn unary(e: &str) -> Vec<String> {
@@ -224,7 +225,7 @@ fn single(e: &str) -> Vec<(String, String)> {
     vec![("entry.ts".to_string(), format!("{}type X = {};\nparse.buildParsers<{{ X: X }}>();\n", PRELUDE, e))]
 }
 // depth: 1 = leaves + one constructor; 2 = + unary over unary, unary over binary (thinned), binary over unary (thinned)
-fn programs(depth: usize) -> Vec<(String, Vec<(String, String)>)> {
+fn programs(depth: usize, offset: usize) -> Vec<(String, Vec<(String, String)>)> {
     let mut out: Vec<(String, Vec<(String, String)>)> = vec![];
     // hand-written multi-file / malformed projects come first: their case numbers stay fixed when the grammar grows
     let mf: Vec<(&str, Vec<(&str, &str)>)> = vec![
@@ -282,6 +283,10 @@ fn programs(depth: usize) -> Vec<(String, Vec<(String, String)>)> {
         ("typeof a property of an imported constant whose initialiser mentions a constant of its own module", vec![("lib.ts", "// padding padding padding padding padding padding padding\n// padding padding padding padding padding padding padding\n// padding padding padding padding padding padding padding\n// padding padding padding padding padding padding padding\nconst DEFAULT_PORT = 8080;\nexport const cfg = { port: DEFAULT_PORT, host: \"h\" };\n"), ("entry.ts", "import { cfg } from \"./lib\";\nimport * as ns from \"./lib\";\ntype P = typeof cfg.port;\ntype Q = typeof ns.cfg.host;\nparse.buildParsers<{ P: P, Q: Q }>();\n")]),
         ("a named Map next to named objects inside Exclude and a conditional type", vec![("entry.ts", "type Obj = { m: Index, n: number };\ntype Index = Map<string, Obj | null>;\ntype X = Exclude<Obj | Index | string, string>;\ntype Y = Index extends Map<string, unknown> ? 1 : 2;\nparse.buildParsers<{ X: X, Y: Y }>();\n")]),
         ("two same-named enums in two modules, members used as type arguments", vec![("a.ts", "export enum Status { Active = \"a\", Off = \"o\" }\n"), ("b.ts", "export enum Status { Active = \"b\", Off = \"x\" }\n"), ("entry.ts", "import * as a from \"./a\";\nimport * as b from \"./b\";\ntype Tagged<T> = { tag: T };\nparse.buildParsers<{ A: Tagged<a.Status.Active>, B: Tagged<b.Status.Active>, C: a.Status.Active, D: b.Status.Active }>();\n")]),
+        ("export * cycle between two modules, a name that exists", vec![("a.ts", "export * from \"./b\";\nexport type A = { a: string };\n"), ("b.ts", "export * from \"./a\";\nexport type B = { b: number };\n"), ("entry.ts", "import { A, B } from \"./a\";\nparse.buildParsers<{ A: A, B: B }>();\n")]),
+        ("export * cycle between two modules, a name that does not exist", vec![("a.ts", "export * from \"./b\";\n"), ("b.ts", "export * from \"./a\";\n"), ("entry.ts", "import { Nope } from \"./a\";\nimport { v } from \"./b\";\nparse.buildParsers<{ N: Nope, V: typeof v }>();\n")]),
+        ("union whose members share a discriminator value", vec![("entry.ts", "type X = { a: \"x\" | \"y\" } | { a: \"x\", c: boolean };\nparse.buildParsers<{ X: X }>();\n")]),
+        ("union of three members with pairwise overlapping discriminator values", vec![("entry.ts", "type X = { a: \"x\" | \"y\", b: string } | { a: \"x\" | \"z\", c: boolean } | { a: \"z\" | \"y\" };\ntype Y = { k: \"p\" | \"q\", v: X } | { k: \"q\" };\nparse.buildParsers<{ X: X, Y: Y }>();\n")]),
         ("four files export a type of the same name at different depths", vec![("a/t.ts", "export type T = { a: string };\n"), ("b/a/t.ts", "export type T = { b: string };\n"), ("c/b/a/t.ts", "export type T = { c: string };\n"), ("t.ts", "export type T = { d: string };\n"),
             ("entry.ts", "import { T as T1 } from \"./a/t\";\nimport { T as T2 } from \"./b/a/t\";\nimport { T as T3 } from \"./c/b/a/t\";\nimport { T as T4 } from \"./t\";\nparse.buildParsers<{ T1: T1, T2: T2, T3: T3, T4: T4 }>();\n")]),
     ];
@@ -307,6 +312,12 @@ fn programs(depth: usize) -> Vec<(String, Vec<(String, String)>)> {
             out.push((format!("same type name in {:?} ({})", chosen.iter().map(|x| paths[*x]).collect::<Vec<_>>(), if generic { "generic" } else { "plain" }), files));
         } } }
     }
+    // generated: one generic instantiated twice with string literals that are not identifiers
+    let lits = ["a-b", "a.b", "a b", "a/b", "a:b", "a_b", "a+b", "user/created", "user:created"];
+    for i in 0..lits.len() { for j in (i + 1)..lits.len() {
+        let src = format!("type Box<T> = {{ v: T }};\nparse.buildParsers<{{ A: Box<\"{}\">, B: Box<\"{}\"> }}>();\n", lits[i], lits[j]);
+        out.push((format!("Box<{:?}> and Box<{:?}>", lits[i], lits[j]), vec![("entry.ts".to_string(), src)]));
+    } }
     let ls = leaves();
     for l in &ls { out.push((l.to_string(), single(l))); }
     let mut d1: Vec<String> = vec![];
@@ -316,8 +327,8 @@ fn programs(depth: usize) -> Vec<(String, Vec<(String, String)>)> {
     if depth >= 2 {
         // unary over every depth-1 expression whose index is a multiple of 7 (thinned), and binary with a leaf
         for (k, e) in d1.iter().enumerate() {
-            if k % 7 == 0 { for u in unary(e) { out.push((u.clone(), single(&u))); } }
-            if k % 41 == 0 { for l in &ls { for b in binary(e, l) { out.push((b.clone(), single(&b))); } for b in binary(l, e) { out.push((b.clone(), single(&b))); } } }
+            if k % 7 == offset % 7 { for u in unary(e) { out.push((u.clone(), single(&u))); } }
+            if k % 41 == offset % 41 { for l in &ls { for b in binary(e, l) { out.push((b.clone(), single(&b))); } for b in binary(l, e) { out.push((b.clone(), single(&b))); } } }
         }
     }
     out
@@ -326,10 +337,10 @@ fn programs(depth: usize) -> Vec<(String, Vec<(String, String)>)> {
 // child mode: run the cases from `--from`, print `S n` when a case starts, `F {json}` for a failing case,
 // `E code diag parse cases` at the end. parent mode (default): run children, and when one dies (a stack overflow
 // aborts the process and cannot be caught) record the case it was in as a failure and restart after it.
-fn child(depth: usize, from: u64, only: Option<u64>, timeout_s: u64) {
+fn child(depth: usize, offset: usize, from: u64, only: Option<u64>, timeout_s: u64) {
     use std::io::Write;
     std::panic::set_hook(Box::new(|_| {}));
-    let mut progs = programs(depth);
+    let mut progs = programs(depth, offset);
     if let Ok(pth) = std::env::var("FRONT_SRC") {
         progs = vec![("FRONT_SRC".to_string(), vec![("entry.ts".to_string(), std::fs::read_to_string(pth).expect("readable"))])];
     }
@@ -389,7 +400,7 @@ fn child(depth: usize, from: u64, only: Option<u64>, timeout_s: u64) {
     std::process::exit(0);
 }
 fn fail_json(case: u64, descr: &str, files: &[(String, String)], why: &str) -> String {
-    let src: Vec<String> = files.iter().map(|(n, t)| format!("// {}\n{}", n, t.replace(PRELUDE, "/* prelude types O, O2, U, Tup, Rec, RT, G<T>, Alias, D1, D2, RS, RM, En, I1, I2, GC<T>, Fn, Shape, KC */\n"))).collect();
+    let src: Vec<String> = files.iter().map(|(n, t)| format!("// {}\n{}", n, t.replace(PRELUDE, "/* prelude types O, O2, U, Tup, Rec, RT, G<T>, Alias, D1, D2, RS, RM, En, I1, I2, GC<T>, Fn, Shape, KC, MK */\n"))).collect();
     format!("{{\"case\":{},\"input\":{:?},\"observed\":{:?},\"required\":{:?}}}", case, format!("{} :: {}", descr, src.join("\n")), why,
         "compilation returns promptly with generated code or well-located diagnostics; it never panics, crashes or loops")
 }
@@ -400,6 +411,7 @@ fn main() {
     let mut only: Option<u64> = None;
     let mut timeout_s = 20u64;
     let mut from = 1u64;
+    let mut offset = 0usize;
     let mut is_child = false;
     let mut i = 1;
     while i < args.len() {
@@ -408,21 +420,22 @@ fn main() {
             "--case" => { only = args[i + 1].parse().ok(); i += 2; }
             "--timeout" => { timeout_s = args[i + 1].parse().unwrap(); i += 2; }
             "--from" => { from = args[i + 1].parse().unwrap(); i += 2; }
+            "--offset" => { offset = args[i + 1].parse().unwrap(); i += 2; }
             "--child" => { is_child = true; i += 1; }
             _ => i += 1,
         }
     }
-    if is_child { child(depth, from, only, timeout_s); return; }
+    if is_child { child(depth, offset, from, only, timeout_s); return; }
     let exe = std::env::current_exe().expect("exe");
-    let total = if std::env::var("FRONT_SRC").is_ok() { 1 } else { programs(depth).len() as u64 };
+    let total = if std::env::var("FRONT_SRC").is_ok() { 1 } else { programs(depth, offset).len() as u64 };
     let (mut n_code, mut n_diag, mut n_parse) = (0u64, 0u64, 0u64);
     let mut failed: Vec<u64> = vec![];
     let mut first: Option<String> = None;
     let mut next = 1u64;
-    let progs = if std::env::var("FRONT_SRC").is_ok() { vec![] } else { programs(depth) };
+    let progs = if std::env::var("FRONT_SRC").is_ok() { vec![] } else { programs(depth, offset) };
     while next <= total {
         let mut cmd = std::process::Command::new(&exe);
-        cmd.arg("--child").arg("--depth").arg(depth.to_string()).arg("--from").arg(next.to_string()).arg("--timeout").arg(timeout_s.to_string());
+        cmd.arg("--child").arg("--depth").arg(depth.to_string()).arg("--offset").arg(offset.to_string()).arg("--from").arg(next.to_string()).arg("--timeout").arg(timeout_s.to_string());
         if let Some(c) = only { cmd.arg("--case").arg(c.to_string()); }
         let out = cmd.stderr(std::process::Stdio::null()).output().expect("child runs");
         let text = String::from_utf8_lossy(&out.stdout).to_string();
